@@ -243,6 +243,25 @@ func (c *ctx) history(name band.Name, nops int) error {
 		return err
 	}
 	c.emit(M{"ev": "reset", "bname": b.Name(), "proj": proj})
+	if len(chans) > 16 && c.rnd.Intn(3) == 0 {
+		// one or two whole 16-channel blocks switched off (a network that does not listen there): the channel-mask CFList then
+		// has an all-zero mask BETWEEN non-zero ones
+		for k := 0; k < 1+c.rnd.Intn(2); k++ {
+			blk := c.rnd.Intn((len(chans)+15)/16 - 1)
+			for i := blk * 16; i < blk*16+16 && i < len(chans); i++ {
+				ii := i
+				ev := M{"ev": "op", "bname": b.Name(), "op": "disable", "i": ii}
+				ev["code"] = codeErr(func() error { return b.DisableUplinkChannelIndex(ii) })
+				if proj, chans, err = planProjection(b); err != nil {
+					return err
+				}
+				ev["proj"] = proj
+				ev["lookups"] = []interface{}{}
+				c.emit(ev)
+			}
+		}
+		c.emit(cflistEvent(b, cfVersions[c.rnd.Intn(len(cfVersions))]))
+	}
 	for i := 0; i < nops; i++ {
 		ev := c.applyRandomOp(b, len(chans), chans, 40)
 		proj, chans, err = planProjection(b)
@@ -455,6 +474,17 @@ func (c *ctx) planCase(name band.Name, nsets int, exhaustive bool) error {
 		}
 		for i := range chans {
 			if !keep[i] {
+				b.DisableUplinkChannelIndex(i)
+			}
+		}
+		_, chans, _ = planProjection(b)
+	}
+	if !exhaustive && len(chans) > 16 && c.rnd.Intn(3) == 0 {
+		// one or two whole 16-channel blocks switched off, the rest untouched: a channel-mask CFList with an all-zero mask
+		// BETWEEN non-zero ones
+		for k := 0; k < 1+c.rnd.Intn(2); k++ {
+			blk := c.rnd.Intn((len(chans) + 15) / 16)
+			for i := blk * 16; i < blk*16+16 && i < len(chans); i++ {
 				b.DisableUplinkChannelIndex(i)
 			}
 		}
